@@ -137,12 +137,15 @@ CHECKS["C19"] = dict(
 
 CHECKS["C01"] = dict(
     engine="e2e",
-    technique="Lean 4 proof (composition of exporter encoders with the collector decoder: e2e_template, e2e_data) + real exporter-to-collector correspondence over tcp/udp/tls/dtls x IPv4/IPv6",
+    technique="Lean 4 proof (composition of exporter encoders with the collector decoder: e2e_template, e2e_data; session-level e2e_session by induction over histories) + real exporter-to-collector correspondence over tcp/udp/tls/dtls x IPv4/IPv6",
     text="Proved: e2e_template (the collector model, fed the template message the exporter lays out, delivers and stores the same fields - id, "
          "enterprise, type, length, name, in order - under the same domain), e2e_data (with that template in force every record count and every "
          "well-typed value vector comes out bit-identical, IP addresses in canonical length, in every decoding mode), exporter_emits_wire (what the "
          "exporter model's SendSet writes is exactly that layout), e2e_send_data (the whole chain in one statement: set built by the builder model, "
-         "sent by the exporter model, decoded by the collector model that holds the template = the values handed in), tie_lookup_self (each registry element is found under its own (enterprise, id)). "
+         "sent by the exporter model, decoded by the collector model that holds the template = the values handed in), e2e_session (for ANY "
+         "sequence of template and data sets that are all sent successfully, the collector - from any state - delivers the i-th message as "
+         "handed over, decoded with the template most recently sent for that id, with the exporter's domain, time and sequence number; by "
+         "induction over the session), tie_lookup_self (each registry element is found under its own (enterprise, id)). "
          "A real ExportingProcess is connected to a real CollectingProcess over the four transports and both address families (certificates "
          "minted at run time); every delivery is compared with the model's prediction and judged directly against what was handed to SendSet.",
     design="4 (C01)",
